@@ -72,6 +72,7 @@ class Monitors(Listener):
         self.calc = {}                    # task id -> (duration, total) from _calc_task_delay
         self.status_hist = {}             # obs name -> [statuses]
         self.admit = {}                   # obs name -> snapshot at admission
+        self.promised = {}                # obs name -> ingest machines promised at admission, not yet provisioned
         self.emits = []                   # (time, actor, obs, event, resource) as emitted
         self.reservation_sizes = {}       # obs -> size at creation
         self.ingested_so_far = {}         # obs -> total_data_size after the previous block
@@ -224,6 +225,9 @@ class Monitors(Listener):
             self.after_alloc_begin(info, outcome)
         if k == "monitor":
             self.check_row_post()
+        if k == "provingest" and info["blocks"] == 1:
+            ob = info["args"][1] if len(info["args"]) > 1 else None
+            self.promised.pop(getattr(ob, "name", ob), None)
         if k == "provingest" and info["blocks"] == 1 and outcome[0] == "yield":
             self.after_prov_ingest(info)
         if k == "hot2cold" and outcome[0] in ("end", "raise"):
@@ -260,6 +264,15 @@ class Monitors(Listener):
             self.viol("C08", "admitted-without-machines", "%s %s" % (o.name, snap))
         if len(cv["ingest"]) + d > tel.max_ingest:
             self.viol("C08", "admitted-over-ingest-limit", "%s %s" % (o.name, snap))
+        # machines promised to observations that have begun but whose provisioning has not run yet (it runs later
+        # in the same instant) are not free for this one, and count towards the ingest-machine limit
+        promised = sum(self.promised.values())
+        snap["promised"] = promised
+        if promised and d <= len(cv["available"]) < d + promised:
+            self.viol("C08", "admitted-on-promised-machines", "%s %s" % (o.name, snap))
+        if promised and len(cv["ingest"]) + d <= tel.max_ingest < len(cv["ingest"]) + promised + d:
+            self.viol("C08", "admitted-over-ingest-limit", "%s %s (with the machines promised)" % (o.name, snap))
+        self.promised[o.name] = d
         if vol > hot.current_capacity:
             self.viol("C08", "admitted-without-hot-space", "%s %s" % (o.name, snap))
         tr = cold.observations["transfer"]
